@@ -260,7 +260,7 @@ let spec (input : string) (obs : string) : string =
       if field "big" obs = Some "1" then "FAIL alloc-beyond-limit-" ^ cmd ^ " decode allocated more than 32 MiB + 4 x MaxPayloadLength"
       else if WireSpec.count_over_limit k payload && not (starts_with "E:" obs) then
         "FAIL count-above-limit-accepted-" ^ cmd
-      else if starts_with "OK " obs && WireSpec.canonical_kind k && field "re" obs <> Some "same" then
+      else if starts_with "OK " obs && WireSpec.canonical_kind (n_of_string pver) k && field "re" obs <> Some "same" then
         "FAIL reencode-mismatch-" ^ cmd ^ " re-encoding the decoded message does not reproduce the accepted bytes"
       else "OK"
     | "R" :: pver :: ebs :: net :: tl ->
